@@ -11,21 +11,21 @@ var piBits = math.Float64bits(math.Pi)
 
 // FA is the float alphabet (as IEEE-754 bit patterns).
 var FA = []uint64{
-	0x0000000000000000,               // 0  +0
-	0x8000000000000000,               // 1  -0
-	math.Float64bits(1),              // 2
-	math.Float64bits(-1),             // 3
-	math.Float64bits(1.5),            // 4
-	piBits,                           // 5
+	0x0000000000000000,                // 0  +0
+	0x8000000000000000,                // 1  -0
+	math.Float64bits(1),               // 2
+	math.Float64bits(-1),              // 3
+	math.Float64bits(1.5),             // 4
+	piBits,                            // 5
 	math.Float64bits(math.MaxFloat64), // 6
-	0x0000000000000001,               // 7  smallest subnormal
-	0x000FFFFFFFFFFFFF,               // 8  largest subnormal
-	0x7FF0000000000000,               // 9  +Inf
-	0xFFF0000000000000,               // 10 -Inf
-	0x7FF8000000000000,               // 11 quiet NaN
-	0x7FF000000000BEEF,               // 12 signalling NaN with payload
-	piBits ^ 1,                       // 13 differs from pi in the last (trailing) bit
-	piBits ^ (1 << 63),               // 14 differs from pi in the first (leading) bit
+	0x0000000000000001,                // 7  smallest subnormal
+	0x000FFFFFFFFFFFFF,                // 8  largest subnormal
+	0x7FF0000000000000,                // 9  +Inf
+	0xFFF0000000000000,                // 10 -Inf
+	0x7FF8000000000000,                // 11 quiet NaN
+	0x7FF000000000BEEF,                // 12 signalling NaN with payload
+	piBits ^ 1,                        // 13 differs from pi in the last (trailing) bit
+	piBits ^ (1 << 63),                // 14 differs from pi in the first (leading) bit
 }
 
 var faName = []string{"+0", "-0", "1", "-1", "1.5", "pi", "MaxF", "subMin", "subMax", "+Inf", "-Inf", "qNaN", "sNaN", "pi^1", "pi^msb"}
@@ -48,6 +48,9 @@ var IA = []int32{0, 1, -1, math.MaxInt32, math.MinInt32, math.MaxInt32 - 1, math
 
 // IAthorough extends IA.
 var IAthorough = []int32{0, 1, -1, math.MaxInt32, math.MinInt32, math.MaxInt32 - 1, math.MinInt32 + 1, 1 << 30, -(1 << 30), 2, 255, 256, -65536}
+
+// ZA is the int64 alphabet for the zig-zag pair.
+var ZA = []int64{0, 1, -1, 2, -2, 63, 64, -64, -65, math.MaxInt32, math.MinInt32, 1 << 31, -(1 << 31) - 1, 1 << 62, -(1 << 62), math.MaxInt64, math.MinInt64, math.MaxInt64 - 1, math.MinInt64 + 1}
 
 // OA is the boundary alphabet for offsets.
 var OA = []int{0, 1, 255, 256, 257, 65535, 65536, 65537, 1<<24 - 1, 1 << 24, 1<<24 + 1, 1<<31 - 1, 1 << 31, 1<<32 - 2, 1<<32 - 1}
